@@ -204,6 +204,18 @@ func c06Measure(args []string) error {
 			}
 		}
 	}
+	// very small and very large models (cell edges of 1e-5 and 1e3): every clause is relative to the cell
+	for _, R := range []float64{1e-4, 3e-3, 3e4} {
+		R := R
+		c := v3.Vec{X: rnd.Float64(), Y: rnd.Float64(), Z: rnd.Float64()}.MulScalar(R)
+		sp, _ := sdf.Sphere3D(R)
+		ms := measShape{name: "scaled-sphere", kind: "sphere", s: sdf.Transform3D(sp, sdf.Translate3d(c)), radius: R,
+			vol: 4.0 / 3 * math.Pi * R * R * R, param: fmtf(R),
+			surf: func(r *rand.Rand) (v3.Vec, bool) { return c.Add(randUnit(r).MulScalar(R)), true }}
+		for _, which := range []string{"mcu", "mco"} {
+			emit(measure(ms, which, 24, 0, rnd))
+		}
+	}
 	for rep := 0; rep < reps; rep++ {
 		var shapes []measShape
 		// sphere at a random centre
@@ -239,9 +251,19 @@ func c06Measure(args []string) error {
 			param: fmtf(ch, cr)})
 		// cone
 		kh, r0, r1 := 1+rnd.Float64(), 0.6+rnd.Float64(), 0.2+0.3*rnd.Float64()
+		if rep%2 == 1 {
+			r0, r1 = r1, r0 // the wider end up
+		}
 		co, _ := sdf.Cone3D(kh, r0, r1, 0)
 		shapes = append(shapes, measShape{name: "cone", kind: "exact", s: co, vol: math.Pi * kh / 3 * (r0*r0 + r0*r1 + r1*r1),
-			param: fmtf(kh, r0, r1)})
+			param: fmtf(kh, r0, r1),
+			// a point of the lateral surface (kept only where the shape itself says it is on the surface)
+			surf: func(r *rand.Rand) (v3.Vec, bool) {
+				t, a := r.Float64(), 2*math.Pi*r.Float64()
+				rr := r0 + t*(r1-r0)
+				p := v3.Vec{X: rr * math.Cos(a), Y: rr * math.Sin(a), Z: -kh/2 + t*kh}
+				return p, math.Abs(co.Evaluate(p)) < 1e-9
+			}})
 		// union and difference of two spheres (csg: 1-Lipschitz, not exact)
 		s2, _ := sdf.Sphere3D(0.7 * R)
 		s2t := sdf.Transform3D(s2, sdf.Translate3d(c.Add(v3.Vec{X: 0.8 * R})))
